@@ -23,6 +23,7 @@ func runC20(c *Ctx) {
 	c.load("./cmd/templ/generatecmd/proxy")
 	parsesLikeTheBrowser(c, "C20.R7")
 	memoDependsOnAllInputs(c, "C20.R8")
+	documentParsedAsReceived(c, "C20.R9")
 	p := c.pkg("cmd/templ/generatecmd/proxy")
 	info := p.TypesInfo
 
@@ -668,6 +669,7 @@ func runC20(c *Ctx) {
 		if pc, ok := arg.(*ast.CallExpr); ok {
 			if pfn := calleeOf(info, pc); pfn != nil && pfn.Pkg() == p.Types {
 				if pfd := findFunc(p, "", pfn.Name()); pfd != nil {
+					nonceTakenAsGiven(c, "C20.R4", pfd)
 					ntest := 0
 					ast.Inspect(pfd.Body, func(n ast.Node) bool {
 						is, ok := n.(*ast.IfStmt)
